@@ -1,7 +1,11 @@
 (* Lemmas about the reader vocabulary (Model/Reader.v): spans, placement, seek / view, and the two
    library scanners.  Reused by ImageProofs (C05), SubscriptionProofs (C20) and meant for C01. *)
-Require Import V.Base.MachineInt V.Generated.GenConsts V.Model.LogBase V.Model.Descriptor V.Model.Reader
-               V.Proofs.DescriptorProofs.
+Require Import V.Base.MachineInt.
+Require Import V.Generated.GenConsts.
+Require Import V.Model.LogBase.
+Require Import V.Model.Descriptor.
+Require Import V.Model.Reader.
+Require Import V.Proofs.DescriptorProofs.
 From Coq Require Import ZifyBool.
 Open Scope Z_scope.
 
